@@ -284,6 +284,13 @@ def call_expressions():
       forms.append((f'fn({a}, y={b})', [a], {'y': b}))
       forms.append((f'fn(x={a}, y={b})', [], {'x': a, 'y': b}))
   forms += [('fn', [], {}), ('fn()', [], {}), ('mod.sub.fn(1)', ['1'], {})]
+  # literals with nested brackets, and strings that hold brackets, commas, equal signs and quotes
+  nested = ['((1, 2), (3, 4))', '(((1,),),)', '[[1, [2, [3]]], (4, (5, 6))]', "{'k': ((0, 0), (1, 1)), 'j': [()]}",
+            "')'", "'('", "'a, b=c'", '"it\'s"', "'[)]('", "((), [], {})", "[')', '(', ((')',),)]"]
+  for a in nested:
+    forms.append((f'fn({a})', [a], {}))
+    forms.append((f'fn(pads={a})', [], {'pads': a}))
+    forms.append((f'fn(1, pads={a}, y={a})', ['1'], {'pads': a, 'y': a}))
   for text, args, kwargs in forms:
     cnt += 1
     try:
